@@ -5,6 +5,7 @@
 //
 // values: MelemType as two hex words "re im" (im ignored in the real build); labels hex-encoded.
 #include <pomerol.h>
+#include <pomerol/Vertex4.h>
 #include "hx.h"
 #include <fstream>
 #include <sstream>
@@ -103,8 +104,37 @@ struct Session {
     Symmetrizer* Symm;
     StatesClassification* S;
     Hamiltonian* H;
-    Session() : L(new Lattice), Idx(0), Ham(0), Symm(0), S(0), H(0) {}
+    DensityMatrix* DM;
+    FieldOperatorContainer* Ops;
+    GFContainer* GFC;
+    TwoParticleGFContainer* TPC;
+    Session() : L(new Lattice), Idx(0), Ham(0), Symm(0), S(0), H(0), DM(0), Ops(0), GFC(0), TPC(0) {}
 };
+
+static void dumpParts(const char* kind, unsigned i, unsigned j, FieldOperator& op) {
+    const FieldOperator::BlocksBimap& bm = op.getBlockMapping();
+    out << "o bmap " << kind << " " << i << " " << j << " " << bm.size();
+    for (FieldOperator::BlocksBimap::right_const_iterator it = bm.right.begin(); it != bm.right.end(); ++it)
+        out << " " << int(it->second) << " " << int(it->first);     // left right, ordered by right
+    out << "\n";
+    const std::vector<FieldOperatorPart*>& parts = op.getParts();
+    for (size_t p = 0; p < parts.size(); ++p) {
+        const RowMajorMatrixType& R = parts[p]->getRowMajorValue();
+        const ColMajorMatrixType& C = parts[p]->getColMajorValue();
+        bool same = (R.rows() == C.rows() && R.cols() == C.cols());
+        if (same) for (int r = 0; r < R.rows() && same; ++r) for (int c = 0; c < R.cols(); ++c)
+            if (R.coeff(r, c) != C.coeff(r, c)) { same = false; break; }
+        out << "o fpart " << kind << " " << i << " " << j << " " << int(parts[p]->getLeftIndex()) << " " << int(parts[p]->getRightIndex())
+            << " " << R.rows() << " " << R.cols() << " " << int(same) << " " << R.nonZeros();
+        for (int r = 0; r < R.outerSize(); ++r)
+            for (RowMajorMatrixType::InnerIterator it(R, r); it; ++it)
+                out << " " << it.row() << " " << it.col() << " " << valStr(it.value());
+        out << "\n";
+    }
+}
+
+static std::vector<long> readLongs(std::istream& is) { size_t n; is >> n; std::vector<long> v(n); for (size_t k = 0; k < n; ++k) is >> v[k]; return v; }
+static std::vector<double> readDoubles(std::istream& is) { size_t n; is >> n; std::vector<double> v(n); for (size_t k = 0; k < n; ++k) v[k] = hx::readD(is); return v; }
 
 static void dumpLattice(const Lattice& L) {
     const Lattice::SiteMap& sm = L.getSiteMap();
@@ -274,6 +304,130 @@ int main(int argc, char** argv) {
                 out << "\n";
                 unsigned long n = s.S->getNumberOfStates();
                 for (unsigned long st = 0; st < n; ++st) out << "o evstate " << st << " " << hx::d(s.H->getEigenValue(QuantumState(st))) << "\n";
+            } else if (cmd == "dm") {
+                double beta = hx::readD(is);
+                s.DM = new DensityMatrix(*s.S, *s.H, beta);
+                s.DM->prepare(); s.DM->compute();
+                for (BlockNumber b = 0; b < s.S->NumberOfBlocks(); b++) {
+                    const DensityMatrixPart& dp = s.DM->getPart(b);
+                    size_t n = s.S->getBlockSize(b);
+                    out << "o weights " << int(b) << " " << n;
+                    for (size_t k = 0; k < n; ++k) out << " " << hx::d(dp.getWeight(k));
+                    out << "\n";
+                }
+                unsigned long nst = s.S->getNumberOfStates();
+                for (unsigned long st = 0; st < nst; ++st) out << "o wstate " << st << " " << hx::d(s.DM->getWeight(QuantumState(st))) << "\n";
+                out << "o avgE " << hx::d(s.DM->getAverageEnergy()) << "\n";
+                out << "o avgN " << hx::d(s.DM->getAverageOccupancy()) << "\n";
+                unsigned N = s.Idx->getIndexSize();
+                for (unsigned i = 0; i < N; ++i) out << "o occ " << i << " " << hx::d(s.DM->getAverageOccupancy(i)) << "\n";
+                for (unsigned i = 0; i < N; ++i) for (unsigned j = 0; j < N; ++j)
+                    out << "o docc " << i << " " << j << " " << hx::d(s.DM->getAverageDoubleOccupancy(i, j)) << "\n";
+            } else if (cmd == "trunc") {
+                double eps = hx::readD(is);
+                s.DM->truncateBlocks(eps, false);
+                out << "o retained " << int(s.S->NumberOfBlocks());
+                for (BlockNumber b = 0; b < s.S->NumberOfBlocks(); b++) out << " " << int(s.DM->isRetained(b));
+                out << "\n";
+            } else if (cmd == "fops") {
+                s.Ops = new FieldOperatorContainer(*s.Idx, *s.S, *s.H);
+                s.Ops->prepareAll(); s.Ops->computeAll();
+                unsigned N = s.Idx->getIndexSize();
+                for (unsigned i = 0; i < N; ++i) {
+                    dumpParts("cdag", i, 0, const_cast<CreationOperator&>(s.Ops->getCreationOperator(i)));
+                    dumpParts("c", i, 0, const_cast<AnnihilationOperator&>(s.Ops->getAnnihilationOperator(i)));
+                }
+            } else if (cmd == "fop1") {
+                std::string kind; unsigned i, j = 0; is >> kind >> i;
+                if (kind == "cdag") { CreationOperator op(*s.Idx, *s.S, *s.H, i); op.prepare(); op.compute(); dumpParts("cdag1", i, 0, op); }
+                else if (kind == "c") { AnnihilationOperator op(*s.Idx, *s.S, *s.H, i); op.prepare(); op.compute(); dumpParts("c1", i, 0, op); }
+                else { is >> j; QuadraticOperator op(*s.Idx, *s.S, *s.H, i, j); op.prepare(); op.compute(); dumpParts("quad", i, j, op); }
+            } else if (cmd == "gf") {
+                unsigned i, j; is >> i >> j;
+                std::vector<long> ns = readLongs(is);
+                std::vector<double> zs = readDoubles(is);      // pairs re im
+                std::vector<double> taus = readDoubles(is);
+                GreensFunction G(*s.S, *s.H, s.Ops->getAnnihilationOperator(i), s.Ops->getCreationOperator(j), *s.DM);
+                G.prepare(); G.compute();
+                if (!s.GFC) { s.GFC = new GFContainer(*s.Idx, *s.S, *s.H, *s.DM, *s.Ops); s.GFC->prepareAll(); s.GFC->computeAll(); }
+                const GreensFunction& Gc = (*s.GFC)(i, j);
+                out << "o gfvanish " << i << " " << j << " " << int(G.isVanishing()) << "\n";
+                for (size_t k = 0; k < ns.size(); ++k)
+                    out << "o gfn " << i << " " << j << " " << ns[k] << " " << cplxStr(G(ns[k])) << " " << cplxStr(Gc(ns[k])) << "\n";
+                for (size_t k = 0; k + 1 < zs.size(); k += 2) {
+                    ComplexType z(zs[k], zs[k + 1]);
+                    out << "o gfz " << i << " " << j << " " << hx::d(zs[k]) << " " << hx::d(zs[k + 1]) << " " << cplxStr(G(z)) << " " << cplxStr(Gc(z)) << "\n";
+                }
+                for (size_t k = 0; k < taus.size(); ++k)
+                    out << "o gftau " << i << " " << j << " " << hx::d(taus[k]) << " " << cplxStr(G.of_tau(taus[k])) << " " << cplxStr(Gc.of_tau(taus[k])) << "\n";
+            } else if (cmd == "chi") {
+                // chi i j k l clear(0|1) ntriples (n1 n2 n3)*  : term evaluation, then (separate object) the table path
+                unsigned i, j, k, l; int clear; is >> i >> j >> k >> l >> clear;
+                size_t nt; is >> nt;
+                std::vector<long> tr(3 * nt); for (size_t q = 0; q < 3 * nt; ++q) is >> tr[q];
+                TwoParticleGF X(*s.S, *s.H, s.Ops->getAnnihilationOperator(i), s.Ops->getAnnihilationOperator(j),
+                                s.Ops->getCreationOperator(k), s.Ops->getCreationOperator(l), *s.DM);
+                X.prepare(); X.compute();
+                out << "o chivanish " << i << " " << j << " " << k << " " << l << " " << int(X.isVanishing()) << " " << X.parts.size() << "\n";
+                for (size_t q = 0; q < nt; ++q)
+                    out << "o chi " << i << " " << j << " " << k << " " << l << " " << tr[3*q] << " " << tr[3*q+1] << " " << tr[3*q+2]
+                        << " " << cplxStr(X(tr[3*q], tr[3*q+1], tr[3*q+2])) << "\n";
+                TwoParticleGF Y(*s.S, *s.H, s.Ops->getAnnihilationOperator(i), s.Ops->getAnnihilationOperator(j),
+                                s.Ops->getCreationOperator(k), s.Ops->getCreationOperator(l), *s.DM);
+                Y.prepare();
+                std::vector<boost::tuple<ComplexType, ComplexType, ComplexType> > freqs;
+                ComplexType sp = ComplexType(0, M_PI / s.DM->beta);
+                for (size_t q = 0; q < nt; ++q)
+                    freqs.push_back(boost::make_tuple(sp * RealType(2*tr[3*q]+1), sp * RealType(2*tr[3*q+1]+1), sp * RealType(2*tr[3*q+2]+1)));
+                std::vector<ComplexType> tab = Y.compute(clear != 0, freqs, world);
+                out << "o chitab " << i << " " << j << " " << k << " " << l << " " << clear << " " << tab.size();
+                for (size_t q = 0; q < tab.size(); ++q) out << " " << cplxStr(tab[q]);
+                out << "\n";
+                if (!clear) for (size_t q = 0; q < nt; ++q)
+                    out << "o chiafter " << i << " " << j << " " << k << " " << l << " " << tr[3*q] << " " << tr[3*q+1] << " " << tr[3*q+2]
+                        << " " << cplxStr(Y(tr[3*q], tr[3*q+1], tr[3*q+2])) << "\n";
+            } else if (cmd == "susc") {
+                unsigned a, b, c, d; is >> a >> b >> c >> d;
+                std::vector<long> ns = readLongs(is);
+                std::vector<double> taus = readDoubles(is);
+                QuadraticOperator A(*s.Idx, *s.S, *s.H, a, b), B(*s.Idx, *s.S, *s.H, c, d);
+                A.prepare(); A.compute(); B.prepare(); B.compute();
+                EnsembleAverage EA(*s.S, *s.H, A, *s.DM), EB(*s.S, *s.H, B, *s.DM);
+                EA.prepare(); EB.prepare();
+                out << "o avg " << a << " " << b << " " << cplxStr(EA.getResult()) << "\n";
+                out << "o avg " << c << " " << d << " " << cplxStr(EB.getResult()) << "\n";
+                Susceptibility X0(*s.S, *s.H, A, B, *s.DM); X0.prepare(); X0.compute();
+                Susceptibility X1(*s.S, *s.H, A, B, *s.DM); X1.prepare(); X1.compute(); X1.subtractDisconnected();
+                Susceptibility X2(*s.S, *s.H, A, B, *s.DM); X2.prepare(); X2.compute(); X2.subtractDisconnected(EA.getResult(), EB.getResult());
+                Susceptibility X3(*s.S, *s.H, A, B, *s.DM); X3.prepare(); X3.compute();
+                { EnsembleAverage E1(*s.S, *s.H, A, *s.DM), E2(*s.S, *s.H, B, *s.DM); X3.subtractDisconnected(E1, E2); }
+                out << "o suscvanish " << a << " " << b << " " << c << " " << d << " " << int(X0.isVanishing()) << "\n";
+                for (size_t k = 0; k < ns.size(); ++k)
+                    out << "o susc " << a << " " << b << " " << c << " " << d << " " << ns[k] << " " << cplxStr(X0(ns[k])) << " " << cplxStr(X1(ns[k]))
+                        << " " << cplxStr(X2(ns[k])) << " " << cplxStr(X3(ns[k])) << "\n";
+                for (size_t k = 0; k < taus.size(); ++k)
+                    out << "o susctau " << a << " " << b << " " << c << " " << d << " " << hx::d(taus[k]) << " " << cplxStr(X0.of_tau(taus[k]))
+                        << " " << cplxStr(X1.of_tau(taus[k])) << "\n";
+            } else if (cmd == "vertex") {
+                unsigned i, j, k, l; long N; is >> i >> j >> k >> l >> N;
+                size_t nt; is >> nt;
+                std::vector<long> tr(3 * nt); for (size_t q = 0; q < 3 * nt; ++q) is >> tr[q];
+                TwoParticleGF X(*s.S, *s.H, s.Ops->getAnnihilationOperator(i), s.Ops->getAnnihilationOperator(j),
+                                s.Ops->getCreationOperator(k), s.Ops->getCreationOperator(l), *s.DM);
+                X.prepare(); X.compute();
+                GreensFunction G13(*s.S, *s.H, s.Ops->getAnnihilationOperator(i), s.Ops->getCreationOperator(k), *s.DM);
+                GreensFunction G24(*s.S, *s.H, s.Ops->getAnnihilationOperator(j), s.Ops->getCreationOperator(l), *s.DM);
+                GreensFunction G14(*s.S, *s.H, s.Ops->getAnnihilationOperator(i), s.Ops->getCreationOperator(l), *s.DM);
+                GreensFunction G23(*s.S, *s.H, s.Ops->getAnnihilationOperator(j), s.Ops->getCreationOperator(k), *s.DM);
+                G13.prepare(); G13.compute(); G24.prepare(); G24.compute(); G14.prepare(); G14.compute(); G23.prepare(); G23.compute();
+                Vertex4 V(X, G13, G24, G14, G23);
+                V.compute(N);
+                for (size_t q = 0; q < nt; ++q) {
+                    long n1 = tr[3*q], n2 = tr[3*q+1], n3 = tr[3*q+2];
+                    out << "o vertex " << i << " " << j << " " << k << " " << l << " " << N << " " << n1 << " " << n2 << " " << n3
+                        << " " << cplxStr(V.value(n1, n2, n3)) << " " << cplxStr(V(n1, n2, n3)) << " " << cplxStr(X(n1, n2, n3))
+                        << " " << cplxStr(G13(n1)) << " " << cplxStr(G24(n2)) << " " << cplxStr(G14(n1)) << " " << cplxStr(G23(n2)) << "\n";
+                }
             } else {
                 out << "o badcmd\n";
             }
